@@ -127,6 +127,8 @@ def gen_spec(seed: int, config: str | None = None) -> dict:
         mode = rng.choice(["iter", "iter", "batch", "async"])
         role = "both" if (both and i == 0 and mode != "async") else "reader"
         nodes.append({"name": f"r{i}", "role": role, "mode": mode, "script": []})
+        if mode == "async" and rng.random() < 0.25:
+            nodes[-1]["consumers"] = 2
     senders = [n for n in nodes if n["role"] in ("writer", "both")]
     trig_left = 1 if rng.random() < 0.02 else 0
     for _ in range(n_sends):
@@ -609,18 +611,26 @@ class NodeRunner:
                     await asyncio.sleep(0)
 
         async def main():
-            t = loop.create_task(consume(), name=f"consume-{name}")
+            # one or two consumers polling the same queue object (their receive() generators overlap)
+            ts = [loop.create_task(consume(), name=f"consume-{name}-{i}") for i in range(self.node.get("consumers", 1))]
+            if len(ts) > 1:
+                sim.probe("two_async_consumers_on_one_queue")
             await asyncio.sleep(ns / 1e9)
-            if t.done():
-                # the consumer ended by itself: receive_async only ends by raising
-                exc = t.exception()
-                raise exc if exc else RuntimeError("receive_async ended without being cancelled")
-            t.cancel()
+            for t in ts:
+                if t.done():
+                    # the consumer ended by itself: receive_async only ends by raising
+                    exc = t.exception()
+                    for u in ts:
+                        u.cancel()
+                    raise exc if exc else RuntimeError("receive_async ended without being cancelled")
+            for t in ts:
+                t.cancel()
             sim.probe("async_cancelled")
-            try:
-                await t
-            except asyncio.CancelledError:
-                pass
+            for t in ts:
+                try:
+                    await t
+                except asyncio.CancelledError:
+                    pass
 
         try:
             loop.run_until_complete(main())
@@ -1126,6 +1136,10 @@ def shrink_candidates(spec: dict):
         s["knobs"]["consumer_await"] = False
         yield s
     for ni, n in enumerate(nodes):
+        if n.get("consumers", 1) > 1:
+            s = copy.deepcopy(spec)
+            s["nodes"][ni].pop("consumers")
+            yield s
         if n.get("mode") in ("batch", "async"):
             s = copy.deepcopy(spec)
             s["nodes"][ni]["mode"] = "iter"
@@ -1293,13 +1307,13 @@ def spec_size(spec: dict) -> int:
     n += 40 * (spec["clock"]["gran_ns"] != 1) + 10 * bool(spec["clock"]["start_ns"])
     for node in spec["nodes"]:
         n += {"iter": 0, "batch": 15, "async": 30}.get(node.get("mode", "iter"), 0)
-        n += 10 * (node["role"] == "both")
+        n += 10 * (node["role"] == "both") + 20 * (node.get("consumers", 1) > 1)
     return n
 
 
 EXPECTED_PROBES = [
     "cut_header", "cut_body", "cut_before-newline", "cut_inside_multibyte", "reader_hit_eof_while_file_cut_inside_record",
-    "generator_abandoned", "generator_paused", "generator_resumed_after_other_receive", "reader_restart", "async_cancelled", "final_drain_delivered", "damaged_line_in_file",
+    "generator_abandoned", "generator_paused", "generator_resumed_after_other_receive", "two_async_consumers_on_one_queue", "reader_restart", "async_cancelled", "final_drain_delivered", "damaged_line_in_file",
     "file_ends_in_fragment", "fragment_ends_inside_multibyte", "receive_raised_injected_eio", "equal_clock_readings",
     "acked_record_physically_damaged",
 ]
